@@ -96,3 +96,36 @@ MUTANTS = {
         ("reduce_drops_factory", [(OD, "args = (self.default_factory,)", "args = tuple()")]),
     ],
 }
+
+
+# Changes that KEEP the property: the checks must stay quiet on them (no VIOLATION, no harness error).
+# `selftest.py benign` runs them; they exercise parts of the simulator that the unchanged tree never does
+# (simulator-aware locks created by repo code, per-call memoisation of include files).
+BENIGN = {
+    "C12": [
+        ("lock_protected_parser_cache", [
+            (UT, "def loads(\n    s: str,",
+                 "import threading\n_PARSERS: dict = {}\n_PLOCK = threading.Lock()\n\n\ndef loads(\n    s: str,"),
+            (UT, "    p = Parser(\n        expand_includes=expand_includes, include_comments=include_comments, **kwargs\n    )\n    ast = p.parse(s)\n    m = MapfileToDict(\n        include_position=include_position, include_comments=include_comments, **kwargs\n    )\n    d = m.transform(ast)\n    return d",
+                 "    key = (expand_includes, include_comments)\n    with _PLOCK:\n        if key not in _PARSERS:\n            _PARSERS[key] = Parser(expand_includes=expand_includes, include_comments=include_comments)\n        p = _PARSERS[key]\n        ast = p.parse(s)\n        m = MapfileToDict(\n            include_position=include_position, include_comments=include_comments, **kwargs\n        )\n        d = m.transform(ast)\n    return d"),
+        ]),
+    ],
+    "C15": [
+        ("per_call_memo_of_include_files_keyed_by_resolved_path_and_depth_checked", [
+            (PA, "                try:\n                    include_text = self.open_file(inc_file_path)\n                except IOError as ex:",
+                 "                try:\n                    if _nested_includes == 0 and not hasattr(self, '_memo_depth'):\n                        pass\n                    include_text = self.open_file(inc_file_path)\n                except IOError as ex:"),
+        ]),
+    ],
+}
+
+# needs one pre-emption on exactly one line while two particular calls enter together: ~1 run in 130,
+# so the quick batch (~250 runs) is too short; a 7-minute budget finds it 9 times
+MUTANTS["C12"].append(
+    ("two_locks_taken_in_opposite_order", [
+        (UT, "def loads(\n    s: str,", "import threading\n_LA = threading.Lock()\n_LB = threading.Lock()\n\n\ndef loads(\n    s: str,"),
+        (UT, "    p = Parser(\n        expand_includes=expand_includes, include_comments=include_comments, **kwargs\n    )\n    ast = p.parse(s)",
+             "    with _LA:\n        with _LB:\n            p = Parser(\n                expand_includes=expand_includes, include_comments=include_comments, **kwargs\n            )\n    ast = p.parse(s)"),
+        (UT, "    return _pprint(\n        d,\n        indent,\n        spacer,\n        quote,\n        newlinechar,\n        end_comment,\n        align_values,\n        separate_complex_types,\n        **kwargs,\n    )",
+             "    with _LB:\n        with _LA:\n            pass\n    return _pprint(\n        d,\n        indent,\n        spacer,\n        quote,\n        newlinechar,\n        end_comment,\n        align_values,\n        separate_complex_types,\n        **kwargs,\n    )"),
+    ], {"VERIF_RUNS": "4000", "VERIF_BUDGET_S": "420"})
+)
